@@ -13,9 +13,9 @@ def tables_run(name="tables", typeset="TypesQuick"):
                    name, workers=6, timeout=900)
 
 
-def programs_run(nin, maxnodes, num, name):
+def programs_run(nin, maxnodes, num, name, excluded=None):
     c = cfg(spec="SpecSim", constants={"NIn": nin, "MaxNodes": maxnodes}, invariants=["WellFormed", "Emit"],
-            properties=["StepIsGrow"])
+            properties=["StepIsGrow"], overrides=({"Excluded": excluded} if excluded else None))
     return run_tlc("Programs.tla", c, name, workers=1, simulate=num, depth=maxnodes + 1, timeout=600)
 
 
